@@ -87,6 +87,77 @@ def run(ctx):
             if m != flat or mf != floats:
                 ctx.disagreement('representation: implementation and model differ', dict(case, impl=flat[-12:], model=(m[-12:] if isinstance(m, list) else m), impl_f=floats, model_f=mf))
     gym_layer(ctx)
+    user_types(ctx)
+
+
+def user_types(ctx):
+    """spaces over user-defined grid-object types (registered after the library was imported) with MORE statuses / more colours in use than any
+    built-in type: every representation of such a space is built, and every member converts into the space it declares"""
+    import enum
+    from gym_gridverse.agent import Agent
+    from gym_gridverse.geometry import Orientation, Position, Shape
+    from gym_gridverse.grid import Grid
+    from gym_gridverse.grid_object import Color, Floor, GridObject, Wall, grid_object_registry as reg
+    from gym_gridverse.observation import Observation
+    from gym_gridverse.spaces import ObservationSpace, StateSpace
+    from gym_gridverse.state import State
+    r = ctx.rng
+    n0 = len(reg.data)
+    try:
+        for nstat in (2, 4, 5, 7):
+            class VerifLamp(GridObject):      # noqa: D401 -- registered by subclassing, removed again below
+                blocks_movement = False
+                blocks_vision = False
+                holdable = True
+                NUM = nstat
+
+                def __init__(self, level, color):
+                    self.level, self._color = level, color
+
+                @property
+                def state_index(self):
+                    return self.level
+
+                @property
+                def color(self):
+                    return self._color
+
+                @classmethod
+                def can_be_represented_in_state(cls):
+                    return True
+
+                @classmethod
+                def num_states(cls):
+                    return cls.NUM
+
+                def __repr__(self):
+                    return f'VerifLamp({self.level}, {self.color})'
+            colors = [Color.NONE, Color.RED, Color.YELLOW]
+            for is_state in (True, False):
+                shape = Shape(3, 3)
+                space = (StateSpace if is_state else ObservationSpace)(shape, [Floor, Wall, VerifLamp], colors)
+                for kind in rsuite.KINDS:
+                    ctx.case(('user-type', nstat, is_state, kind), True, None)
+                    ctx.count('user type statuses', nstat)
+                    try:
+                        rep = (rsuite.make_state_representation if is_state else rsuite.make_observation_representation)(kind, space)
+                        sp = rep.space
+                        for _ in range(6):
+                            cells = [[r.choice([Floor(), Wall(), VerifLamp(r.randrange(nstat), r.choice(colors)), VerifLamp(nstat - 1, Color.YELLOW)]) for _ in range(3)] for _ in range(3)]
+                            agent = Agent(Position(2, 1), Orientation.F if not is_state else r.choice(list(Orientation)), r.choice([None, VerifLamp(nstat - 1, Color.RED)]))
+                            member = State(Grid(cells), agent) if is_state else Observation(Grid(cells), agent)
+                            if not space.contains(member):
+                                ctx.violation(f'a {"state" if is_state else "observation"} made of the declared types is not a member of its space (user type with {nstat} statuses)', {'statuses': nstat})
+                                continue
+                            bad = rsuite.in_space(rep.convert(member), sp)
+                            if bad:
+                                ctx.violation(f'representation `{kind}` of a space with a user type of {nstat} statuses is outside its declared space at keys {bad}', {'statuses': nstat, 'kind': kind, 'is_state': is_state})
+                    except Exception as e:  # noqa: BLE001
+                        ctx.violation(f'representation `{kind}` of a {"state" if is_state else "observation"} space with a user type of {nstat} statuses raised {type(e).__name__}: {e}',
+                                      {'statuses': nstat, 'kind': kind, 'is_state': is_state})
+            del reg.data[n0:]
+    finally:
+        del reg.data[n0:]
 
 
 def gym_layer(ctx):
